@@ -13,6 +13,9 @@ Family 1 (enumerated): one earlier run x EVERY mutation index x every fault
 Family 2 (sampled): 2-3 earlier runs with seeded faults.
 Family 3 (CLI): `mokapot` main() on a ragged PIN killed at every write of the
           temporary .tsv (and at the move), then main() again on the same file.
+Family 4 (rollup tool): brew_rollup.main failing at mutation call k (kill, torn
+          write, I/O error) in the directory holding its inputs or in a separate
+          one, then brew_rollup.main again.
 """
 
 from __future__ import annotations
@@ -35,13 +38,13 @@ SCENARIO_TIMEOUT = 300
 PROBES = ["earlier_killed", "earlier_io_error", "earlier_clean", "debris_spill_files", "debris_level_files",
           "debris_partial_result", "debris_header_only", "debris_unreadable_parquet", "same_data", "other_data",
           "other_format", "multi_history", "cli", "cli_tsv_leftover", "observed_workers>1", "torn_write",
-          "debris_zero_length", "prefix_or_root_differs", "observed_rows_multiple_of_chunk"]
+          "debris_zero_length", "prefix_or_root_differs", "observed_rows_multiple_of_chunk", "rollup_tool", "rollup_same_dir"]
 RULE = (
     "Histories in one destination directory. Family 1 enumerates, for each grid cell (earlier chunk size x observed "
     "chunk size x same/other data x same/other format), EVERY mutation call index of the earlier assign_confidence run "
     "x {io_error, kill_before, kill_after, kill_torn(0, 0.5, ~1)}; family 2 samples 2-3 earlier runs with seeded "
     "faults, prefixes/file roots, formats and chunking; family 3 kills the CLI at every write of the temporary .tsv and "
-    "at the move, then runs it again. Oracle: observed run in the dirty directory == same run in a clean directory "
+    "at the move, then runs it again; family 4 does the same for brew_rollup.main (fault at mutation call 0..15). Oracle: observed run in the dirty directory == same run in a clean directory "
     "(success parity, byte-identical result files), every intermediate it created is gone, the user's PIN is the "
     "conversion of the original. distinct = distinct (history incl. fault, debris listing digest); non-trivial = the "
     "earlier run(s) left at least one file behind."
@@ -192,6 +195,8 @@ def scenarios(tier, batch_seed):
         if f3_done < n_f3:
             for scn in _family3(derive_seed(PROPERTY, batch_seed, "f3", f3_done), tier):
                 yield scn
+            for scn in _family4(derive_seed(PROPERTY, batch_seed, "f4", f3_done), tier):
+                yield scn
             f3_done += 1
 
 
@@ -257,6 +262,31 @@ def _family3(seed, tier):
     yield scn
 
 
+def _family4(seed, tier):
+    """brew_rollup histories: an earlier rollup run failing at mutation call k, then the rollup again."""
+    rng = random.Random(seed)
+    level_cols = rng.choice([(), ("Precursor",), ("ModifiedPeptide", "Precursor")])
+    n_roots = rng.choice([1, 2, 3])
+    tabs = []
+    for i in range(n_roots):
+        t = _table_params(rng, file_id=i, n_spec=rng.randint(45, 70), level_cols=level_cols)
+        tabs.append(t)
+    base = {"property": PROPERTY, "family": 4, "rollup": True, "tables": tabs,
+            "score_seeds": [rng.getrandbits(32) for _ in tabs], "same_dir": rng.random() < 0.6,
+            "glob_seed": rng.getrandbits(16)}
+    ks = range(0, 16) if tier != "quick" else [0, 1, 2, 3, 5, 7, 9, 11]
+    i = 0
+    for k in ks:
+        for kind, frac in (("kill_before", None), ("kill_torn", 0.5), ("io_error", None)):
+            scn = clone(base)
+            scn["seed"] = derive_seed(seed, i)
+            scn["fault"] = {"at": k, "kind": kind}
+            if frac is not None:
+                scn["fault"]["frac"] = frac
+            i += 1
+            yield scn
+
+
 # ------------------------------------------------------------------------ run
 def _classify_debris(listing_):
     names = [n for n, _ in listing_]
@@ -271,9 +301,82 @@ def _classify_debris(listing_):
     return p
 
 
+def _run_rollup_history(scn, workdir):
+    work = Path(workdir)
+    probes = {"rollup_tool": 1, "rollup_same_dir": int(scn["same_dir"])}
+    faults = {}
+    roots = {}
+    for tag in ("dirty", "clean"):
+        root = work / tag
+        for i, (tab, ss) in enumerate(zip(scn["tables"], scn["score_seeds"])):
+            run = {"tables": [tab], "score_seed": ss, "format": "pin", "knobs": {}, "max_workers": 1,
+                   "sched": {"mode": "fifo"}, "glob_seed": None, "fault": None, "seed": 1, "tag": f"in{i}",
+                   "conf": {"decoys": True, "dedup": True, "rollup": True, "eval_fdr": 0.1037, "file_root": f"{chr(97 + i)}."}}
+            run["in_name"] = f"in{i}"
+            rep = H.run_conf(run, root)
+            if rep["outcome"] != "ok":
+                return {"status": "uninformative", "message": f"input production failed: {rep.get('error')}"[:160],
+                        "digest": digest(scn), "nontrivial": False, "probes": probes}
+        roots[tag] = root
+    def dirs(root):
+        src = root / "out"
+        return src, (src if scn["same_dir"] else root / "roll")
+    src_d, dest_d = dirs(roots["dirty"])
+    src_c, dest_c = dirs(roots["clean"])
+    e = {"src": str(src_d), "dest": str(dest_d), "fault": scn.get("fault"), "glob_seed": scn.get("glob_seed")}
+    rep_e = H.run_rollup_hist(e, roots["dirty"])
+    if rep_e["outcome"] in ("timeout", "harness_error"):
+        raise RuntimeError(f"earlier rollup step failed: {rep_e}")
+    for f in rep_e.get("fired", []):
+        faults[f["kind"]] = faults.get(f["kind"], 0) + 1
+        if f["kind"] == "kill_torn":
+            probes["torn_write"] = 1
+    probes["earlier_killed" if rep_e["outcome"] == "killed" else ("earlier_io_error" if rep_e["outcome"] == "error" else "earlier_clean")] = 1
+    debris = [x for x in H.listing(dest_d) if os.path.basename(x[0]).startswith("rollup.")]
+    out = {
+        "status": "ok",
+        "digest": digest([scn["tables"], scn["score_seeds"], scn.get("fault"), scn["same_dir"], digest(debris)]),
+        "nontrivial": bool(debris),
+        "probes": probes,
+        "faults": faults,
+        "debris_states": [digest(debris)],
+        "sample": {"family": 4, "fault": scn.get("fault"), "earlier_outcome": rep_e["outcome"], "debris": debris[:10],
+                   "same_dir": scn["same_dir"], "roots": len(scn["tables"])},
+    }
+
+    def viol(clause, msg, **sig):
+        sig["tool"] = "brew_rollup"
+        out.update(status="violation", clause=clause, message=msg, signature=sig)
+        return out
+
+    rep_d = H.run_rollup_hist({"src": str(src_d), "dest": str(dest_d), "fault": None, "glob_seed": scn.get("glob_seed")}, roots["dirty"])
+    rep_c = H.run_rollup_hist({"src": str(src_c), "dest": str(dest_c), "fault": None, "glob_seed": scn.get("glob_seed")}, roots["clean"])
+    for rp in (rep_d, rep_c):
+        if rp["outcome"] in ("timeout", "harness_error", "killed"):
+            raise RuntimeError(f"observed rollup step failed: {rp}")
+    if rep_c["outcome"] != "ok":
+        if not is_domain_error(rep_c.get("etype"), rep_c.get("error"), rep_c.get("error")):
+            return viol("run_failed", f"brew_rollup fails even in a clean directory: {rep_c.get('error')}", etype=rep_c.get("etype"))
+        out.update(status="uninformative", message=f"clean rollup fails: {rep_c.get('error')}"[:200])
+        return out
+    if rep_d["outcome"] != "ok":
+        return viol("observed_run_fails_on_debris", f"brew_rollup succeeds in a clean directory but fails after the interrupted "
+                    f"earlier rollup: {rep_d.get('error')}; debris {[n for n, _ in debris][:6]}", etype=rep_d.get("etype"))
+    a, b = H.read_dir(dest_d), H.read_dir(dest_c)
+    for name, want in b.items():
+        if not name.startswith("rollup.") or ".temp." in name:
+            continue
+        if a.get(name) != want:
+            return viol("result_differs", f"rollup result file {name} differs from the clean-directory run "
+                        f"({len((a.get(name) or b'').splitlines())} vs {len(want.splitlines())} lines)", level=name.split(".")[-1])
+    return out
+
+
 def run_scenario(scn, workdir):
     if scn.get("cli"):
         return _run_cli_history(scn, workdir)
+    if scn.get("rollup"):
+        return _run_rollup_history(scn, workdir)
     work = Path(workdir)
     dirty = work / "dirty"
     clean = work / "clean"
@@ -477,6 +580,15 @@ def _run_cli_history(scn, workdir):
 
 
 def shrink_candidates(scn):
+    if scn.get("rollup"):
+        if len(scn["tables"]) > 1:
+            c = clone(scn); c["tables"] = c["tables"][:-1]; c["score_seeds"] = c["score_seeds"][:-1]; yield c
+        if scn["tables"][0].get("level_cols"):
+            c = clone(scn)
+            for t in c["tables"]:
+                t["level_cols"] = []
+            yield c
+        return
     if scn.get("cli"):
         t = scn["table"]
         if t["n_spectra"] > 45:
